@@ -97,6 +97,13 @@ CLAIMED = {
             "and from the weight-absorbed form must agree after 1-3 sweeps (with guards for ill-posed sweeps), fixed-mode factors must "
             "be bit-identical and all-fixed must return the init. Sampled, orders 2-4.",
             "Non-negative algorithms only with non-negative inits; Tucker fixed factors orthonormal.", "DESIGN.md §2 C14"),
+    "C16": ("global-RNG state tracer + bitwise differential of repeated seeded calls",
+            "All 30 seed-accepting entry points (random generators, every randomly initialised decomposition, randomized SVD, sampled "
+            "variants, TT-cross, regressors, initialisers) are called twice with the same integer seed and twice with identically "
+            "seeded RandomState objects while the harness reseeds and advances the global generator in between; outputs must be "
+            "bit-identical and numpy.random.get_state() unchanged across integer-seeded calls; seed-free functions must repeat "
+            "exactly. Vacuity guard: the output must change with seed+1 (counted).",
+            "Bitwise comparison of every array reachable from the return value.", "DESIGN.md §2 C16"),
 }
 
 PENDING_REASON = "check not built yet in this session; see DESIGN.md §2 for the planned monitor"
